@@ -151,6 +151,14 @@ func runSolver(ctx context.Context, sp solverSpec, text string, timeoutS int) (s
 
 // Solve races the solvers on one obligation.
 func Solve(c *Ctx, o *Obligation, timeoutS int, all bool, dumpDir string) *SolveResult {
+	if (o.Kind == "layout" || o.Kind == "forkjoin") && (o.Goal == "true" || o.Goal == "false") {
+		// decided by evaluation / syntactic analysis of the real code; no solver involved
+		st := "unsat"
+		if o.Goal == "false" {
+			st = "sat"
+		}
+		return &SolveResult{Name: o.Name, Status: st, Solver: "evaluation", Per: map[string]string{"evaluation": st}}
+	}
 	text := smtText(c, o)
 	if o.ExpectSat && timeoutS > 5 {
 		timeoutS = 5 // vacuity checks: an inconclusive answer is accepted, so do not wait long
